@@ -107,6 +107,11 @@ def run(m, rep, tier):
     else:
         check_find(m, f, x4)
 
+    # ---- X7: the NDEBUG build does what the assertion build does ---------------------------------
+    from .util import check_assert_effects
+    _ae = rep.rule('X7', 'every store / effectful call made with assertions enabled is also made by the NDEBUG build (no work inside assert())', floor=1)
+    check_assert_effects(m, _ae, ('array.c',))
+
 
 RAND_MAX = 2147483647
 
